@@ -148,6 +148,7 @@ fn main() {
             let end: usize = args.get(5).and_then(|s| s.parse().ok()).unwrap_or(0);
             c20::child_main(tier, cseed, start, end);
         }
+        Some("c20case") => c20::case_main(),
         Some("cold") => cold::child_main(args.get(2).map(|s| s.as_str()).unwrap_or("")),
         Some("tool") => match args.get(2).map(|s| s.as_str()) {
             Some("search-c1") => c19::search_c1_scalars(),
